@@ -55,7 +55,9 @@ impl OodFrame {
     /// into `Self::trace_states` (as byte values).
     ///
     /// # Panics
-    /// Panics if evaluation frame has already been set.
+    /// Panics if:
+    /// * Evaluation frame has already been set.
+    /// * The serialized frame is longer than 65535 bytes.
     pub fn set_trace_states<E>(&mut self, trace_ood_frame: &TraceOodFrame<E>)
     where
         E: FieldElement,
@@ -69,6 +71,13 @@ impl OodFrame {
         let frame_size: u8 = 2;
         self.trace_states.write_u8(frame_size);
         self.trace_states.write_many(&main_and_aux_trace_states);
+
+        // the length of the serialized frame is written as a u16
+        assert!(
+            self.trace_states.len() <= u16::MAX as usize,
+            "trace states do not fit into {} bytes",
+            u16::MAX
+        );
     }
 
     /// Updates constraints composition polynomials (i.e., quotient polynomials) state portion of
@@ -92,6 +101,7 @@ impl OodFrame {
     /// # Panics
     /// Panics if:
     /// * Constraint evaluations have already been set.
+    /// * The serialized evaluations are longer than 65535 bytes.
     pub fn set_quotient_states<E>(&mut self, quotients_ood_frame: &QuotientOodFrame<E>)
     where
         E: FieldElement,
@@ -105,6 +115,13 @@ impl OodFrame {
         let frame_size: u8 = 2;
         self.quotient_states.write_u8(frame_size);
         self.quotient_states.write_many(&quotient_states);
+
+        // the length of the serialized frame is written as a u16
+        assert!(
+            self.quotient_states.len() <= u16::MAX as usize,
+            "constraint evaluations do not fit into {} bytes",
+            u16::MAX
+        );
     }
 
     // PARSER
